@@ -134,6 +134,8 @@ pub struct Config {
     pub spawn_yield: u32,
     /// probability (per mille) of 1-3 yields before an asynchronous lock (tokio::sync::{RwLock, Mutex}) is acquired
     pub lock_yield: u32,
+    /// write-buffer limit of the management API's HTTP server (0: hyper's default, about 400 KB); a tuning knob, varied per plan
+    pub api_buf: usize,
     /// deliver ICMP port-unreachable as ECONNREFUSED on connected UDP sockets
     pub udp_icmp: bool,
 }
@@ -148,6 +150,7 @@ impl Default for Config {
             proxy_v6: "fd00::1".parse().unwrap(),
             spawn_yield: 0,
             lock_yield: 0,
+            api_buf: 0,
             udp_icmp: false,
         }
     }
